@@ -65,8 +65,16 @@ func collectionSymEnv(c *Ctx, info *types.Info, fd *ast.FuncDecl, normalisers ma
 		if !ok {
 			return Val{}, false
 		}
-		if (isBuiltinCall(info, call, "len")) && len(call.Args) == 1 && (env.isRecvRooted(call.Args[0]) || snapshotOfReceiver(info, fd.Body, env.isRecvRooted, call.Args[0])) {
-			return Val{Lin: linSym("size")}, true
+		if (isBuiltinCall(info, call, "len")) && len(call.Args) == 1 {
+			isSnap := env.isRecvRooted(call.Args[0]) || snapshotOfReceiver(info, fd.Body, env.isRecvRooted, call.Args[0])
+			for _, hd := range env.inlineStack { // a snapshot taken inside a helper that is being interpreted in place
+				if !isSnap && hd.Body != nil {
+					isSnap = snapshotOfReceiver(info, hd.Body, env.isRecvRooted, call.Args[0])
+				}
+			}
+			if isSnap {
+				return Val{Lin: linSym("size")}, true
+			}
 		}
 		if rx, name, _, ok := methodCall(call); ok {
 			if name == "GetSize" && len(call.Args) == 0 && env.isRecvRooted(rx) {
